@@ -151,7 +151,9 @@ class HBatch(BatchBase):
 
     def _try_switch_active_batch(self):
         rt = self.rt
-        if rt.switch_fault is not None and rt.switch_fault(self):
+        ev = rt.evil
+        if ev is not None and ev[0] == "switch" and self.bid[1] == ev[1] and not self.is_computed():
+            rt.evil_fired += 1
             raise UserErr(("switch", self.bid))
         if rt.active_batches.get(self.kind) is self:
             rt.active_batches[self.kind] = None
@@ -166,6 +168,13 @@ class HBatch(BatchBase):
     def _flush(self):
         self.flush_calls += 1
         self.rt.on_flush_body(self)
+
+    def flush(self):
+        BatchBase.flush(self)
+        ev = self.rt.evil
+        if ev is not None and ev[0] == "override" and self.bid[1] == ev[1]:
+            self.rt.evil_fired += 1
+            raise UserErr(("flush-override", self.bid))
 
 
 class HItem(BatchItemBase):
@@ -199,28 +208,66 @@ class HCtx(AsyncContext):
         self.rt = rt
         self.cid = (name, fr.path, next(rt.ctx_counter))
         self.fr = fr
-        self.state = "new"
+        self.active = False
+        self.entered = False
+        self.exited = False
+        self.pairs = 0
+        self.fail = rt.ctx_faults.get(name) if rt.ctx_faults else None
+        self.calls = 0
 
     def __repr__(self):
         return "HCtx%r" % (self.cid,)
 
     def __enter__(self):
         self.rt.emit("ctx_enter", self.cid)
-        return AsyncContext.__enter__(self)
+        self.entered = True
+        self.rt.live_ctx[self.cid] = self
+        r = AsyncContext.__enter__(self)
+        if not self.active and self.fail is None:
+            self.rt.violation("context-not-resumed-on-entry", {"ctx": self.cid})
+        return r
 
     def __exit__(self, ty, val, tb):
         try:
             return AsyncContext.__exit__(self, ty, val, tb)
         finally:
-            self.rt.emit("ctx_exit", self.cid)
+            self.exited = True
+            self.rt.live_ctx.pop(self.cid, None)
+            self.rt.emit("ctx_exit", self.cid, None if ty is None else ty.__name__)
+            if self.active and self.fail is None:
+                self.rt.violation(
+                    "context-not-paused-on-exit",
+                    {"ctx": self.cid, "left_by": None if ty is None else ty.__name__},
+                )
+
+    def _maybe_fail(self, what):
+        self.calls += 1
+        f = self.fail
+        if f is not None and f[0] == what and self.calls >= f[1]:
+            self.fail = ("done", 0)
+            raise UserErr(("ctx", what, self.cid[0]))
 
     def resume(self):
         self.rt.emit("ctx_resume", self.cid)
+        if self.active:
+            self.rt.violation("context-resumed-twice-without-pause", {"ctx": self.cid})
+        if self.exited or not self.entered:
+            self.rt.violation("context-resumed-outside-its-block", {"ctx": self.cid})
+        self.active = True
         self.rt.on_ctx(self, "resume")
+        self._maybe_fail("resume")
 
     def pause(self):
         self.rt.emit("ctx_pause", self.cid)
+        if not self.active:
+            self.rt.violation("context-paused-twice-without-resume", {"ctx": self.cid, "in_exit": False})
+        if self.exited or not self.entered:
+            self.rt.violation("context-paused-outside-its-block", {"ctx": self.cid})
+        if self.active:
+            self.pairs += 1
+        self.active = False
         self.rt.on_ctx(self, "pause")
+        self._maybe_fail("pause")
 
 
 class HNonAsync(NonAsyncContext):
@@ -234,13 +281,16 @@ class HNonAsync(NonAsyncContext):
 
     def __enter__(self):
         self.rt.emit("na_enter", self.cid)
+        self.rt.na_created = getattr(self.rt, "na_created", 0) + 1
+        self.rt.live_na[self.cid] = self
         return NonAsyncContext.__enter__(self)
 
     def __exit__(self, ty, val, tb):
         try:
             return NonAsyncContext.__exit__(self, ty, val, tb)
         finally:
-            self.rt.emit("na_exit", self.cid)
+            self.rt.live_na.pop(self.cid, None)
+            self.rt.emit("na_exit", self.cid, None if ty is None else ty.__name__)
 
 
 class HLeaf(object):
@@ -306,12 +356,19 @@ class HarnessRT(object):
         self.lazy_calls = {}
         self.sync_depth = 0
         self.task_of_frame = {}
+        self.evil = None
+        self.evil_fired = 0
+        self.live_ctx = {}
+        self.live_na = {}
+        self.ctx_faults = prog.get("ctx_faults")
+        self.running = []
         self.keep = []
         self.wait_frames = []
         self.yield_leaves = {}
         self.excs = {}
         self.before_probes = []
         self.after_probes = []
+        self.close_probes = []
 
     def __repr__(self):
         return "rt"
@@ -367,6 +424,10 @@ class HarnessRT(object):
                 for rest in items[idx:]:
                     self.item_done[rest.inst] = ("exc", d)
                     self.item_flush[rest.inst] = batch.bid
+                for prev in items[:idx]:
+                    # items this flush skipped are completed with the flush's own error
+                    if self.item_done.get(prev.inst) == ("exc", ("Unset",)):
+                        self.item_done[prev.inst] = ("exc", d)
                 raise e
             self.item_flush[it.inst] = batch.bid
             if mode is None or mode == "spawn":
@@ -397,11 +458,14 @@ class HarnessRT(object):
         fr.steps += 1
         if k == 0:
             self.frames[fr.path] = fr
+        self.running.append(fr)
         self.emit("step", fr.path, k)
         for p in self.step_probes:
             p(self, fr, k)
 
     def ev_end(self, fr):
+        if self.running and self.running[-1] is fr:
+            self.running.pop()
         self.emit("end", fr.path)
 
     def ev_yield(self, fr, k, leaves):
@@ -413,10 +477,15 @@ class HarnessRT(object):
         )
         fr.rtdata = leaves
         self.yield_leaves[(fr.path, k)] = leaves
+        if self.running and self.running[-1] is fr:
+            self.running.pop()
+        else:
+            raise HarnessFault("running stack out of sync at yield of %r" % (fr.path,))
 
     def ev_resume(self, fr, k, leaves, got):
         fr.steps += 1
         fr.rtdata = None
+        self.running.append(fr)
         self.emit("resume", fr.path, k)
         for p in self.resume_probes:
             p(self, fr, k, leaves, None, got)
@@ -427,8 +496,11 @@ class HarnessRT(object):
         fr.rtdata = None
         self.emit("resume_exc", fr.path, k, exc_desc(e))
         if isinstance(e, GeneratorExit):
+            for p in self.close_probes:
+                p(self, fr, k, leaves)
             return
         fr.steps += 1
+        self.running.append(fr)
         for p in self.resume_probes:
             p(self, fr, k, leaves, e, None)
         for p in self.step_probes:
@@ -586,6 +658,10 @@ class HarnessRT(object):
         self.emit("flush_before", getattr(batch, "bid", ("dbg", id(batch))))
         for p in self.before_probes:
             p(self, batch)
+        ev = self.evil
+        if ev is not None and ev[0] == "preflush" and getattr(batch, "bid", (None, None))[1] == ev[1]:
+            self.evil_fired += 1
+            batch.flush()  # public API; the scheduler's own flush() will now raise BatchingError
 
     def _after(self, batch):
         self.emit("flush_after", getattr(batch, "bid", ("dbg", id(batch))))
